@@ -102,6 +102,8 @@ class Engine(ExprMixin, CallMixin):
         self.heavy_ids = set()
         self.qscope = []
         self.always_truthy = set()
+        self.isinstance_dynamic = {}
+        self.defaultdicts = set()
         self.fstring_model = None
 
     # ------------------------------------------------------------------ obligations
